@@ -6,6 +6,7 @@ import (
 	"os"
 	"sort"
 	"strings"
+	"time"
 
 	"golang.org/x/tools/go/ssa"
 )
@@ -200,6 +201,10 @@ func (e *Engine) inline(st *State, caller *Frame, site *ssa.Call, fn *ssa.Functi
 	if occ >= 2 {
 		e.Check(st, caller, site.Pos(), "R-depth", "recursive call of "+fn.Name(), false, "unbounded recursion: "+fn.Name()+" is re-entered while already active twice (chain … "+strings.Join(chain, " ← ")+")")
 		return []Result{{st: st, ret: e.freshOfType(st, site.Type(), "recursion")}}
+	}
+	if !e.Cfg.Deadline.IsZero() && time.Now().After(e.Cfg.Deadline) {
+		e.Check(st, caller, site.Pos(), "R-depth", "time budget at call of "+fn.Name(), false, "the time budget of a repeated (escalated) analysis is exhausted — undecided; the result of the run with fewer disjuncts is kept")
+		return []Result{{st: st, ret: e.freshOfType(st, site.Type(), "budget")}}
 	}
 	if e.Cfg.MaxLP > 0 && e.LP.Calls > e.Cfg.MaxLP {
 		e.Check(st, caller, site.Pos(), "R-depth", "solver budget at call of "+fn.Name(), false, "the analysis budget (number of entailment queries) is exhausted: call structure too deep or recursive — undecided")
